@@ -174,6 +174,20 @@ func queueStep(state string, in, out any) []string {
 	if _, pend := out.(Pending); pend {
 		return same(s) // still blocked at quiescence: no effect
 	}
+	if strings.HasPrefix(i.Op, blockedPrefix) {
+		// observation (C07): the operation was blocked at quiescence
+		switch strings.TrimPrefix(i.Op, blockedPrefix) {
+		case "BlockingAdd":
+			if !s.closed && s.capacity() <= len(s.items) {
+				return same(s)
+			}
+		case "Wait", "Receive":
+			if !s.closed && len(s.items) == 0 {
+				return same(s)
+			}
+		}
+		return nil
+	}
 	o := out.(qOut)
 	if o.Err == "ctx" {
 		return same(s) // "an operation that returns a context error has no effect"
@@ -261,7 +275,12 @@ type blockingCall struct {
 	canceled bool
 }
 
-func c05Run(w *W) {
+func c05Run(w *W) { c05RunMode(w, false) }
+
+// c05RunMode: with liveness set (C07's registration) parked iterators take
+// part and the operations still blocked at quiescence are judged against the
+// model state; linearizability itself is then C05's business.
+func c05RunMode(w *W, liveness bool) {
 	h := &Hist{}
 	var q *pubsub.Queue[int]
 	init := qState{}
@@ -386,7 +405,26 @@ func c05Run(w *W) {
 			w.Fault("cancel")
 		}
 	}
+	if liveness && simrt.Choose(2) == 0 {
+		n := 1 + simrt.Choose(2)
+		for i := 0; i < n; i++ {
+			next := q.Producer()
+			simrt.Spawn("bystander:Queue.Producer", func() {
+				for {
+					if _, err := next(w.Ctx); err != nil {
+						return
+					}
+				}
+			})
+		}
+		w.Probe("parked-iterator-bystanders")
+	}
 	simrt.Quiesce()
+	if liveness {
+		if n := h.ObserveBlocked(func(op string) any { return qIn{Op: op} }, func(in any) string { return in.(qIn).Op }); n > 0 {
+			w.Probe("blocked-at-quiescence")
+		}
+	}
 	w.State(fmt.Sprintf("queue len=%d", min(q.Len(), 5)))
 	// let every blocked client finish: cancel all contexts (ops that return a
 	// context error are no-ops in the model).
@@ -397,6 +435,10 @@ func c05Run(w *W) {
 	w.hist = h.Strings()
 	w.After = func(res *simrt.Result) {
 		if res.Budget {
+			return
+		}
+		if liveness {
+			checkBlockedAtQuiescence(w, h, init.enc(), queueStep, func(in any) bool { return strings.HasPrefix(in.(qIn).Op, blockedPrefix) }, "Queue")
 			return
 		}
 		CheckLin(w, h, init.enc(), queueStep, "non-linearizable:Queue")
